@@ -81,31 +81,3 @@ def c02_mld0(w):
     if w.get("threshold_within_rounding_of_the_distance") and c == float("inf"):
         return True
     return m == c or abs(m - c) <= 1e-12 * max(1.0, abs(m))
-
-
-@classifier("c03_euclidean_bound_ignores_penalty_and_max_step")
-def c03_ub(w):
-    """use_pruning with a penalty and series of different lengths, or with max_step: the Euclidean distance is used as
-    the bound although the path it stands for costs more (penalised padding steps) or is not admissible (a step above
-    max_step).  Pruning can then only *lose* paths: the result with pruning is inf or larger than without."""
-    if w.get("kind") == "finite-above-threshold" and w.get("pruning_bound_is_not_a_path_cost") \
-            and w.get("euclidean_bound") == 0 and w.get("with_bound") == w.get("without"):
-        # same root cause, other symptom: the (invalid) bound is 0, which the Python engine reads as "no bound at all",
-        # so the explicit max_dist given next to use_pruning is dropped too
-        return True
-    if w.get("kind") not in ("lost-below-threshold", "changed-below-threshold", "cell-changed-below-bound"):
-        return False
-    if not w.get("pruning_bound_is_not_a_path_cost"):
-        return False
-    st = w.get("settings") or {}
-    if not st.get("use_pruning"):
-        return False
-    if not ((st.get("penalty") and len(w.get("s1") or []) != len(w.get("s2") or [])) or st.get("max_step")):
-        return False
-    a, b = w.get("with_bound"), w.get("without")
-    try:
-        a = float("inf") if a in ("inf", float("inf")) else float(a)
-        b = float(b)
-    except (TypeError, ValueError):
-        return False
-    return a > b
